@@ -98,6 +98,19 @@ fn gen_case(kind: Kind, seed: u64, k: usize) -> (GenCfg, Vec<Op>) {
             cfg.append_only = true;
         }
     }
+    // One property of one node overwritten hundreds of times with a compaction after each
+    // overwrite: the property store then holds enough versions for its B-tree leaves to split
+    // while versions of the same key are being added ("overwritten values stay overwritten").
+    if kind == Kind::C05 && k % 400 == 399 && !cfg.keys.is_empty() && !cfg.labels.is_empty() {
+        let key = cfg.keys[0].clone();
+        let mut h = vec![Op::Tx { writes: vec![W::CreateNode { ext: 1000, labels: vec![cfg.labels[0].clone()] }, W::CreateNode { ext: 1001, labels: vec![cfg.labels[0].clone()] }], commit: true }];
+        let n = 420 + rng.below(80);
+        for i in 0..n {
+            h.push(Op::Tx { writes: vec![W::SetNodeProp { node: (i % 7 == 6) as u32, key: key.clone(), val: nervusdb_api::PropertyValue::Int(i as i64) }], commit: true });
+            h.push(if i % 50 == 49 { Op::Checkpoint } else { Op::Compact });
+        }
+        return (cfg, h);
+    }
     let cfg2 = cfg.clone();
     let mut g = HistoryGen::new(&cfg2);
     // families with edge-free configs cannot generate edge ops: the generator skips them
